@@ -69,6 +69,8 @@ func runC10(c *Check) {
 	c10Registry(c, blocks)
 	c10Serving(c)
 	_ = p
+	c.Rule("R10.5", "a failed in-fetch verification ends the fetch (panic or that error), never a silent success")
+	c10FetchVerdict(c, "R10.5")
 }
 
 func c10Unmarshal(c *Check, bt *types.Named, vs []*verifier) {
